@@ -17,6 +17,23 @@ structure Valid (sp : Spec (m := m) X) : Prop where
   gsupp : ∀ t x', 0 < sp.g (t+1) x' → 0 < sp.g t (sp.parent x') ∧ 0 < sp.q t (sp.parent x') x'
   rssymm : ∀ t (w : Fin (m+1) → ℚ) (σ : Equiv.Perm (Fin (m+1))), sp.rs t (w ∘ σ) = sp.rs t w
 
+/-- the same hypotheses, required only of the steps `t < T` that a sweep of `T` steps performs (the
+unbounded `Valid` cannot hold for a branching system on a finite state type: it asks for a proposal
+out of every supported state of every level, for ever) -/
+structure ValidTo (sp : Spec (m := m) X) (T : ℕ) : Prop where
+  g0 : ∀ x, sp.g 0 x = if x = sp.x0 then 1 else 0
+  gnn : ∀ t x, 0 ≤ sp.g t x
+  qnn : ∀ t x x', 0 ≤ sp.q t x x'
+  qsum : ∀ t x, t < T → 0 < sp.g t x → ∑ x', sp.q t x x' = 1
+  qparent : ∀ t x x', t < T → 0 < sp.q t x x' → sp.parent x' = x
+  qsupp : ∀ t x x', t < T → 0 < sp.g t x → 0 < sp.q t x x' → 0 < sp.g (t+1) x'
+  gsupp : ∀ t x', t < T → 0 < sp.g (t+1) x' → 0 < sp.g t (sp.parent x') ∧ 0 < sp.q t (sp.parent x') x'
+  rssymm : ∀ t (w : Fin (m+1) → ℚ) (σ : Equiv.Perm (Fin (m+1))), sp.rs t (w ∘ σ) = sp.rs t w
+
+theorem Valid.to {sp : Spec (m := m) X} (hv : Valid sp) (T : ℕ) : ValidTo sp T :=
+  ⟨hv.g0, hv.gnn, hv.qnn, fun t x _ => hv.qsum t x, fun t x x' _ => hv.qparent t x x',
+    fun t x x' _ => hv.qsupp t x x', fun t x' _ => hv.gsupp t x', hv.rssymm⟩
+
 variable (sp : Spec (m := m) X) (u : ℚ)
 
 def S0 : Sys X m := fun _ => (sp.x0, 1)
@@ -47,10 +64,10 @@ theorem wbar_sum {t : ℕ} {S : Sys X m} (h : GoodW sp t S) : ∑ i, wbar S i = 
   rw [← Finset.sum_div]
   exact div_self (ne_of_gt (tot_pos h))
 
-theorem incr_pos (hv : Valid sp) {t : ℕ} {x x' : X} (hg : 0 < sp.g t x) (hq : 0 < sp.q t x x') :
-    0 < incr sp t x x' := by
+theorem incr_pos {T : ℕ} (hv : ValidTo sp T) {t : ℕ} (ht : t < T) {x x' : X} (hg : 0 < sp.g t x)
+    (hq : 0 < sp.q t x x') : 0 < incr sp t x x' := by
   unfold incr
-  exact div_pos (hv.qsupp t x x' hg hq) (mul_pos hg hq)
+  exact div_pos (hv.qsupp t x x' ht hg hq) (mul_pos hg hq)
 
 /-- linearity of the building blocks -/
 theorem propC_lin (t : ℕ) (x' : X) (S : Sys X m) : Lin (propC sp t x' S) := by
@@ -112,7 +129,7 @@ theorem C_lin : ∀ (t : ℕ) (x : X), Lin (C sp u t x) := by
       rw [this]; exact (ih _).smul _ _
 
 /-- propagation lands in good systems (terms with a zero proposal probability vanish) -/
-theorem propC_congr (hv : Valid sp) {t : ℕ} {x' : X} {S : Sys X m}
+theorem propC_congr {T : ℕ} (hv : ValidTo sp T) {t : ℕ} (ht : t < T) {x' : X} {S : Sys X m}
     (hS : GoodW sp t S) (hx' : 0 < sp.g (t+1) x') (hpar : sp.parent x' = (S 0).1)
     {f f' : Sys X m → ℚ} (h : ∀ T, Good sp (t+1) x' T → f T = f' T) :
     propC sp t x' S f = propC sp t x' S f' := by
@@ -125,14 +142,14 @@ theorem propC_congr (hv : Valid sp) {t : ℕ} {x' : X} {S : Sys X m}
     refine ⟨by simp [ext], ?_⟩
     intro i
     refine Fin.cases ?_ ?_ i
-    · have hgs := hv.gsupp t x' hx'
+    · have hgs := hv.gsupp t x' ht hx'
       rw [hpar] at hgs
       simp only [ext, Fin.cons_zero]
-      exact ⟨mul_pos (hS 0).1 (incr_pos hv hgs.1 hgs.2), hx'⟩
+      exact ⟨mul_pos (hS 0).1 (incr_pos hv ht hgs.1 hgs.2), hx'⟩
     · intro j
       simp only [ext, Fin.cons_succ]
-      exact ⟨mul_pos (hS j.succ).1 (incr_pos hv (hS j.succ).2 (hz j)),
-        hv.qsupp t _ _ (hS j.succ).2 (hz j)⟩
+      exact ⟨mul_pos (hS j.succ).1 (incr_pos hv ht (hS j.succ).2 (hz j)),
+        hv.qsupp t _ _ ht (hS j.succ).2 (hz j)⟩
   · push Not at hz
     obtain ⟨i, hi⟩ := hz
     have h0 : sp.q t (S i.succ).1 (y i) = 0 := le_antisymm hi (hv.qnn _ _ _)
@@ -145,7 +162,7 @@ theorem reset_good {t : ℕ} {S : Sys X m} (hu : 0 < u) (hS : GoodW sp t S)
   intro j
   exact ⟨hu, (hS (b j)).2⟩
 
-theorem stepC_congr (hv : Valid sp) (hu : 0 < u) {t : ℕ} {x' : X} {S : Sys X m}
+theorem stepC_congr {T : ℕ} (hv : ValidTo sp T) (hu : 0 < u) {t : ℕ} (ht : t < T) {x' : X} {S : Sys X m}
     (hS : GoodW sp t S) (hx' : 0 < sp.g (t+1) x') (hpar : sp.parent x' = (S 0).1)
     {f f' : Sys X m → ℚ} (h : ∀ T, Good sp (t+1) x' T → f T = f' T) :
     stepC sp u t x' S f = stepC sp u t x' S f' := by
@@ -155,17 +172,17 @@ theorem stepC_congr (hv : Valid sp) (hu : 0 < u) {t : ℕ} {x' : X} {S : Sys X m
     apply Finset.sum_congr rfl
     intro a _
     congr 1
-    apply propC_congr hv (reset_good hu hS _) hx'
+    apply propC_congr hv ht (reset_good hu hS _) hx'
     · simp [reset, hpar]
     · exact h
-  · exact propC_congr hv hS hx' hpar h
+  · exact propC_congr hv ht hS hx' hpar h
 
-theorem C_congr (hv : Valid sp) (hu : 0 < u) : ∀ (t : ℕ) (x : X), 0 < sp.g t x →
+theorem C_congr {T : ℕ} (hv : ValidTo sp T) (hu : 0 < u) : ∀ (t : ℕ) (x : X), t ≤ T → 0 < sp.g t x →
     ∀ {f f' : Sys X m → ℚ}, (∀ S, Good sp t x S → f S = f' S) → C sp u t x f = C sp u t x f' := by
   intro t
   induction t with
   | zero =>
-    intro x hx f f' h
+    intro x _ hx f f' h
     simp only [C]
     apply h
     have hx0 : x = sp.x0 := by
@@ -179,12 +196,12 @@ theorem C_congr (hv : Valid sp) (hu : 0 < u) : ∀ (t : ℕ) (x : X), 0 < sp.g t
     refine ⟨one_pos, ?_⟩
     rw [hv.g0]; simp
   | succ t ih =>
-    intro x hx f f' h
+    intro x ht hx f f' h
     simp only [C]
-    have hgs := hv.gsupp t x hx
-    apply ih _ hgs.1
+    have hgs := hv.gsupp t x ht hx
+    apply ih _ (Nat.le_of_succ_le ht) hgs.1
     intro S hS
-    exact stepC_congr hv hu hS.2 hx hS.1.symm h
+    exact stepC_congr hv hu ht hS.2 hx hS.1.symm h
 
 #print axioms C_congr
 end ASMC
